@@ -11,7 +11,8 @@ one_prop() {
     [ -f $d/patch.diff ] || continue
     # a seed recorded as caught by another property's check (meta.json check_result.caught = "...-by-CNN") runs that check
     by=$(python3 -c "import json,re;m=re.search(r'by-(C[0-9]+)',json.load(open('$d/meta.json')).get('check_result',{}).get('caught',''));print(m.group(1) if m else '$id')")
-    out=$(TAILN=4 tools/try_seed.sh $by /verif/$d quick 2>&1); rc=$?
+    tier=$(python3 -c "import json;print('thorough' if json.load(open('$d/meta.json')).get('check_result',{}).get('caught','')=='thorough' else 'quick')")
+    out=$(TAILN=4 tools/try_seed.sh $by /verif/$d $tier 2>&1); rc=$?
     if echo "$out" | grep -q "PATCH DOES NOT APPLY"; then st=NOAPPLY
     elif echo "$out" | grep -q "^VIOLATION"; then st=CAUGHT
     elif [ $rc -eq 0 ]; then st=MISSED
